@@ -385,7 +385,11 @@ class SimulationParameters(JsonSerializable):
             If `name` is not in parameters or is not iterable.
         """
         if name in self.parameters.keys():
-            if isinstance(self.parameters[name], Iterable):
+            value = self.parameters[name]
+            # A 0-dimensional numpy array has an __iter__ method, but it
+            # cannot be iterated (nor has it a length)
+            if isinstance(value, Iterable) and not (isinstance(
+                    value, np.ndarray) and value.ndim == 0):
                 if unpack_bool is True:
                     self._unpacked_parameters_set.add(name)
                 else:
